@@ -20,6 +20,8 @@ class FlowModel:
     """A small ODE model family with a closed-form solution (concrete mode) / a UF flow (symbolic)."""
 
     def __init__(self, kind):
+        self.readout = kind.endswith("_ro")  # same dynamics, the model additionally carries a readout
+        kind = kind[:-3] if self.readout else kind
         self.kind = kind
         self.autonomous = kind != "timedep"
 
@@ -58,6 +60,8 @@ class FlowModel:
             m.add_reaction("v", R.mass_action_1s, args=["x", "kia"], stoichiometry={"x": -1})
         else:
             raise ValueError(self.kind)
+        if self.readout:
+            m.add_readout("total", R.twice, args=[m.get_variable_names()[0]])
         return m
 
     # -- the flow -----------------------------------------------------------------------
